@@ -1438,6 +1438,11 @@ class DiameterMessage:
             header_stream = stream[index:index+DIAMETER_HEADER_LENGTH]
             header = DiameterHeader.load(header_stream)
 
+            if header.get_length() < DIAMETER_HEADER_LENGTH:
+                raise DiameterMessageError("invalid bytes stream. The "\
+                                           "Message Length field is shorter "\
+                                           "than a Diameter Header")
+
             lower_limit = index + DIAMETER_HEADER_LENGTH
             upper_limit = index + header.get_length()
 
